@@ -739,9 +739,9 @@ def r07_6(ctx):
 
 
 def run(ctx):
-    r07_1(ctx)
-    r07_2(ctx)
-    r07_3(ctx)
-    r07_4(ctx)
-    r07_5(ctx)
-    r07_6(ctx)
+    ctx.guard(r07_1)
+    ctx.guard(r07_2)
+    ctx.guard(r07_3)
+    ctx.guard(r07_4)
+    ctx.guard(r07_5)
+    ctx.guard(r07_6)
